@@ -1,6 +1,7 @@
 package sym
 
 import (
+	"crypto/sha256"
 	"math/big"
 
 	"symgo/smt"
@@ -151,13 +152,115 @@ func (s *sampler) ev1(t *smt.Term) *smt.Term {
 		r = c.BV2IntSigned(args[0])
 	case smt.OInt2BV:
 		r = c.Int2BV(args[0], t.Sort.W)
+	case smt.OApp:
+		r = s.evApp(t, args)
 	default:
-		return nil // uninterpreted functions etc.
+		return nil
 	}
 	if r == nil || !r.IsConst() {
 		return nil
 	}
 	return r
+}
+
+// evApp gives the uninterpreted functions of the crypto model a concrete interpretation for one sample:
+// a pseudo-random function of the argument values (so equal arguments give equal results) with values in
+// [1, n) — which satisfies every range axiom the models add — and the real modular inverse for secp.inv.
+func (s *sampler) evApp(t *smt.Term, args []*smt.Term) *smt.Term {
+	c := s.c
+	name := t.Name
+	isHash := false
+	for _, p := range []string{"keccak!", "sha256!", "hkdf!", "aesctr!"} {
+		if len(name) >= len(p) && name[:len(p)] == p {
+			isHash = true
+		}
+	}
+	switch {
+	case name == "secp.inv":
+		if args[0].Val.Sign() == 0 {
+			return c.IntI(0)
+		}
+		inv := new(big.Int).ModInverse(new(big.Int).Mod(args[0].Val, secpN), secpN)
+		if inv == nil {
+			return nil
+		}
+		return c.IntConst(inv)
+	case isHash || name == "secp.x" || name == "secp.y" || name == "secp.yodd":
+		h := sha256.New()
+		h.Write([]byte(name))
+		for _, a := range args {
+			h.Write([]byte{0})
+			h.Write([]byte(a.Val.Text(16)))
+		}
+		v := new(big.Int).SetBytes(h.Sum(nil))
+		if t.Sort.K == smt.KBool {
+			return c.BoolConst(v.Bit(0) == 1)
+		}
+		if t.Sort.K != smt.KInt {
+			return nil
+		}
+		nm1 := new(big.Int).Sub(secpN, big.NewInt(1))
+		v.Mod(v, nm1)
+		v.Add(v, big.NewInt(1))
+		return c.IntConst(v)
+	}
+	return nil
+}
+
+// sampleWitness looks for a concrete assignment of the variables that satisfies the path condition, the exact
+// definitions of abstracted operators and c; it returns the assignment or nil.
+func (it *Interp) sampleWitness(c *smt.Term) map[*smt.Term]*smt.Term {
+	if it.P == nil || it.M == nil {
+		return nil
+	}
+	rs := it.ranges()
+	all := append(append([]*smt.Term{}, it.P.PC...), it.P.Exact...)
+	var vars []*smt.Term
+	seen := map[*smt.Term]bool{}
+	collectVars(c, seen, &vars)
+	for _, p := range all {
+		collectVars(p, seen, &vars)
+	}
+	for _, n := range it.P.Nondets {
+		collectVars(n.T, seen, &vars)
+	}
+	if len(vars) == 0 || len(vars) > 256 {
+		return nil
+	}
+	rnd := uint64(0x9E3779B97F4A7C15) ^ uint64(c.ID)<<1 ^ uint64(len(it.P.PC))
+	for k := 0; k < 2*sampleTries; k++ {
+		s := &sampler{c: it.C, env: map[*smt.Term]*smt.Term{}, memo: map[*smt.Term]*smt.Term{}}
+		ok := true
+		for i, v := range vars {
+			kk := k
+			if k >= 5 && k < 12 {
+				kk = int((uint64(k)*2654435761 + uint64(i)*40503) % 5)
+			}
+			val := rs.candidate(it.C, v, kk, &rnd)
+			if val == nil {
+				ok = false
+				break
+			}
+			s.env[v] = val
+		}
+		if !ok {
+			continue
+		}
+		if r := s.ev(c); r == nil || !r.IsTrue() {
+			continue
+		}
+		good := true
+		for _, p := range all {
+			if r := s.ev(p); r == nil || !r.IsTrue() {
+				good = false
+				break
+			}
+		}
+		if good {
+			return s.env
+		}
+	}
+	return nil
 }
 
 func collectVars(t *smt.Term, seen map[*smt.Term]bool, out *[]*smt.Term) {
